@@ -40,6 +40,16 @@ def _grid_sets(rng, quick):
     for n, (a, b) in enumerate(pairs):
         sets.append([[(a, a + 2_000_000, [texts[n % len(texts)]]),
                       (b + 5_000_000, b + 7_000_000, [texts[(n + 5) % len(texts)], "second line"])]])
+    # cues with an empty line inside (whitespace-normalised away, never the end of the cue), and cues
+    # shorter than the coarsest resolution on the chain (both ends in one frame / millisecond)
+    for n, (a, b) in enumerate(pairs[::3]):
+        sets.append([[(a, a + 2_000_000, ["top", "", texts[n % len(texts)]]),
+                      (b + 5_000_000, b + 7_000_000, ["x", "", "", "last"]),
+                      (b + 8_000_000, b + 9_000_000, ["after"])]])
+    for a in (0, 1, 40_001, 1_040_000):
+        for d in (0, 1, 999, 1000, 20_000, 39_998):
+            sets.append([[(1_000_000, 2_000_000, ["before"]), (3_000_000 + a, 3_000_000 + a + d, ["flash"]),
+                          (5_000_000, 6_000_000, ["after"])]])
     return sets
 
 
@@ -86,6 +96,12 @@ def inputs(ctx):
     for ch in ctx._chains:
         for k, s in enumerate(gsets):
             if len(ch) == 3 and k % 4:
+                continue
+            res = 40000 if "MicroDVD" in ch else 1000
+            if "SAMI" in ch and any(a // res == b // res for lang in s for a, b, _ in lang):
+                # SAMI has no way to write a cue that begins and ends at the same instant (its end is
+                # the next sync): cues that collapse at the chain's resolution are outside the domain
+                # on chains through SAMI
                 continue
             ins.append({"id": "g%d" % n, "chain": ch, "langs": s})
             n += 1
